@@ -11,8 +11,17 @@ from vf.tlc import TLCFailure
 
 def run_family(ctx, name: str, cases: list) -> dict:
     logging.disable(logging.CRITICAL)
-    traces = [reconsim.run_schedule({}, sch, seed=ctx.seed * 31 + i) for i, sch in enumerate(cases)]
-    findings = []
+    from vf import watchdog
+
+    traces, findings, kept = [], [], []
+    for i, sch in enumerate(cases):
+        try:
+            with watchdog.limit(90, "schedule"):
+                traces.append(reconsim.run_schedule({}, sch, seed=ctx.seed * 31 + i))
+            kept.append(sch)
+        except watchdog.Hang:
+            findings.append({"event": "hang", "schedule": sch, "line": 0, "rows": []})
+    cases = kept
     from vf import tracecheck
 
     norm = [{"rows": [{"e": r["e"], "t": r["t"], "snap": r.get("snap", {"rs": "", "started": False, "tries": 0, "timer": -1, "listen": False})} for r in t["rows"]]} for t in traces]
